@@ -4,6 +4,7 @@ import vlib
 import recvlib
 import convlib
 import c07
+import recvprop
 
 
 def gen_cases(rng, tier):
@@ -16,8 +17,8 @@ def gen_cases(rng, tier):
             src = recvlib.gen_recv_item(rng, x, "x")
             if src is None:
                 continue
-            cases.append({"target": x["name"], "src": src, "entry": "meta", "pairs": []})
-    return cases
+            cases.append({"target": x["name"], "src": src, "entry": "meta"})
+    return [recvprop.with_pairs(c) for c in cases]
 
 
 def run(tier, seed, replay=None):
